@@ -71,7 +71,7 @@ def real_collect(records, chr_lengths, high_memory, strategy="take_best", pickle
         out_raw = os.path.join(d, "s.save")
         sample = _types.SimpleNamespace(out_raw_file=out_raw, file_list=[], prefix="s")
         dp = DP.DatasetProcessor.__new__(DP.DatasetProcessor)
-        dp.args = _types.SimpleNamespace(resume=False, threads=1, high_memory=high_memory, keep_tmp=True,
+        dp.args = _types.SimpleNamespace(resume=False, threads=1, high_memory=high_memory, keep_tmp=True, read_group=None,
                                          gunzipped_reference=None,
                                          multimap_strategy=MR.MultimapResolvingStrategy[strategy])
         dp.reference_record_dict = {G.name_chr(c): "A" * ln for c, ln in chr_lengths.items()}
